@@ -10,6 +10,8 @@
    no '{' (C15 finding reserved-name-brace) and no tag NAME contains ':' (values may). *)
 From Pyro Require Import Model.Base Model.Key Model.Dimension Model.Labels Model.Index.
 From Pyro Require Import Proofs.BcmpProofs Proofs.KeyProofs Proofs.DimensionProofs Proofs.IndexProofs Proofs.IndexSumProofs.
+From Pyro Require Import Model.Segment Model.Storage Proofs.C07StorageBridge.
+Require Pyro.Proofs.StorageProofs.
 From Coq Require Import Permutation.
 
 (* --- Intersection: any number of sorted duplicate-free inputs of any length, whatever permutation the sort returns --- *)
@@ -160,3 +162,36 @@ Theorem C07_get_exact : forall ops Q, Forall op_ok ops -> key_ok Q ->
   ix_get Q (ix_run ops) = Some (spec_get Q ops).
 Proof. exact get_exact. Qed.
 Print Assumptions C07_get_exact.
+
+(* --- bridge to Model/Storage.v (the storage specification of C01/C11/C13): it abstracts the inverted index
+   by a filter over its sorted table of live series and assumes `key_consistent`; both follow from the models of
+   the index and of series names.  sid_of K = (normalized K, app_name K, tags K); op_parsed: every Put/Delete
+   identifier is sid_of K for an admitted K (key_ok); bridge_run drives Model/Index.v in lock-step with st_run:
+   accepted Put -> IPut, Delete -> IDelete, retention pass -> IDrop of exactly the series whose segment root
+   s_delete_before_unix deletes. --- *)
+Theorem C07_key_consistent : forall pis,
+  (forall pi, In pi pis -> sid_parsed (pi_sid pi)) -> StorageProofs.key_consistent pis.
+Proof. exact key_consistent_parsed. Qed.
+Print Assumptions C07_key_consistent.
+
+Theorem C07_key_consistent_from_parse : forall s s',
+  has c_lbrace (app_name (parse s)) = false -> has c_lbrace (app_name (parse s')) = false ->
+  sid_key (sid_of (parse s)) = sid_key (sid_of (parse s')) ->
+  sid_of (parse s) = sid_of (parse s') /\
+  sid_app (sid_of (parse s)) = sid_app (sid_of (parse s')) /\
+  sid_tags (sid_of (parse s)) = sid_tags (sid_of (parse s')).
+Proof. exact key_consistent_from_parse. Qed.
+Print Assumptions C07_key_consistent_from_parse.
+
+Theorem C07_storage_index_sound : forall rthr ops Q, Forall op_parsed ops -> key_ok Q ->
+  let st := fst (st_run rthr ops st_init) in
+  let ist := snd (bridge_run rthr ops st_init ix_empty) in
+  ix_select_series Q ist
+  = Some (map (fun ks => sid_key (fst ks)) (filter (fun ks => sel_matches (sid_of Q) (fst ks)) (st_segs st))).
+Proof. exact index_lookup_is_filter. Qed.
+Print Assumptions C07_storage_index_sound.
+
+Theorem C07_sel_matches_is_sub_labels : forall Q K, key_ok Q -> key_ok K ->
+  sel_matches (sid_of Q) (sid_of K) = sub_labels Q K.
+Proof. exact sel_matches_sub. Qed.
+Print Assumptions C07_sel_matches_is_sub_labels.
